@@ -12,8 +12,25 @@ import (
 // network, real time. One-sided value oracle: a byte reaching the target although it must
 // not is a violation; a legitimate peer that does not get through within the generous
 // real-time horizon is a violation only when the client reported an authentication error.
-func udpCases() []Case {
+func udpCases() []Case { return udpCasesTier(true) }
+
+func udpCasesTier(thorough bool) []Case {
 	var out []Case
+	// a shared secret AND certificates on one UDP endpoint: the secret must not switch the
+	// certificate checks off (both requirements are configured, both hold)
+	secretCerts := []string{"good", "untrusted"}
+	if thorough {
+		secretCerts = []string{"good", "untrusted", "wronghost", "expired"}
+	}
+	for _, cert := range secretCerts {
+		for _, insecure := range []bool{false, true} {
+			for _, req := range []bool{false, true} {
+				for _, cc := range []string{"", "good", "foreign"} {
+					out = append(out, Case{Members: []Member{{Carrier: "udp", Cert: cert, Host: "127.0.0.1:0", Require: req}}, Insecure: insecure, ClientCert: cc, KnowsCA: true, UDP: "starttls+secret"})
+				}
+			}
+		}
+	}
 	for _, u := range []string{"secret:equal", "secret:different", "secret:server-only", "secret:client-only", "secret:none"} {
 		out = append(out, Case{Members: []Member{{Carrier: "udp", Host: "127.0.0.1"}}, UDP: u})
 	}
@@ -82,6 +99,8 @@ func executeUDP(c Case) (kind, detail string) {
 		o.ClientSecret, want = "s3cret", false
 	case "secret:none":
 	case "starttls":
+	case "starttls+secret":
+		o.ServerSecret, o.ClientSecret = "s3cret", "s3cret"
 	default:
 		var i int
 		if _, err := fmt.Sscanf(c.UDP, "secret-pair:%d", &i); err == nil && i < len(secretPairs()) {
@@ -91,7 +110,7 @@ func executeUDP(c Case) (kind, detail string) {
 		}
 	}
 	switch c.UDP {
-	case "starttls":
+	case "starttls", "starttls+secret":
 		want = admits(m, c)
 	}
 	u, err := world.NewUDP(o)
